@@ -10,7 +10,8 @@ from . import geo_build
 from .edit_geo import GeoMachine, my_name_lists, mesh_problems, edge_connected, Refused
 
 EDITS = ('REFINE', 'SPLIT', 'DECOMPOSE', 'RENAME_COL', 'ROTATE', 'TRANSLATE', 'SET_SURFACE',
-         'ADD_WELL', 'DEL_WELL', 'SNAP', 'REFINE_LAYERS', 'REDUCE', 'ADD_COL', 'DEL_COL')
+         'ADD_WELL', 'DEL_WELL', 'SNAP', 'REFINE_LAYERS', 'REDUCE', 'ADD_COL', 'DEL_COL',
+         'SET_OPTION', 'SET_OPTION', 'COPY_LAYERS')
 FEET = 0.3048
 
 
